@@ -212,7 +212,9 @@ pub fn params_in_budget(ver: u8, p: &[u8]) -> bool {
             let mem = u64::from_be_bytes(p[0..8].try_into().unwrap());
             let time = u32::from_be_bytes(p[8..12].try_into().unwrap());
             let para = u32::from_be_bytes(p[12..16].try_into().unwrap());
-            mem <= 64 * 1024 * 1024 && time <= 3 && para <= 4
+            // the number of lanes is not a cost: memory and passes bound the work whatever the lane count
+            let _ = para;
+            mem <= 64 * 1024 * 1024 && time <= 3
         }
     }
 }
